@@ -94,6 +94,92 @@ def oracle_stack(ctx: Ctx, case):
 
 BOXB = c01.BOXB
 
+# ----------------------------------------------------------------------------- wrapper stacks over built-in environments
+CLASSIC_KIND = {"Pendulum": "box_bounded", "ContinuousMountainCar": "box_bounded", "CartPole": "disc_unbounded", "MountainCar": "disc_bounded", "Acrobot": "disc_bounded"}
+
+
+@functools.lru_cache(maxsize=None)
+def _classic_stack(name, program_json):
+    base = c01._classic(name, None)
+    return base, wrapref.build_on(base, json.loads(program_json))
+
+
+@eqx.filter_jit
+def _wrapped_parts(env, base, wstate, bstate, act, inner_act, k):
+    nxt = env.transition(wstate, act, key=k)
+    bnxt = base.transition(bstate, inner_act, key=k)
+    return dict(
+        nxt_base=nxt.unwrapped, bnxt=bnxt,
+        rew=env.reward(wstate, act, nxt, key=k), brew=base.reward(bstate, inner_act, bnxt, key=k),
+        obs=env.observation(wstate, key=k), bobs=base.observation(bstate, key=k),
+        term=env.terminal(nxt, key=k), bterm=base.terminal(bnxt, key=k),
+        trunc=env.truncate(nxt), btrunc=base.truncate(bnxt),
+        nxt=nxt,
+    )
+
+
+def oracle_classic_stack(ctx: Ctx, case):
+    """A wrapper program over a built-in environment behaves as the inner environment with only the declared
+    change applied (inner env's own functions composed with the reference maps)."""
+    name, program = case["env"], case["program"]
+    base, env = _classic_stack(name, json.dumps(program))
+    ref = wrapref.GenericRef(base, program)
+    tags = {"env": name}
+    bstate = c01._classic_state(base, name, case["y"], 0.3, None)
+    counts = case["counts"][: len(ref.limits)] + [0] * max(0, len(ref.limits) - len(case["counts"]))
+    # wrap the base state exactly as the stack nests it
+    w0 = env.initial(key=jr.key(0))
+    cs = list(counts)
+
+    def rec(st_):
+        if hasattr(st_, "env_state"):
+            if hasattr(st_, "step_count"):
+                st_ = eqx.tree_at(lambda x: x.step_count, st_, jnp.asarray(cs.pop(0), dtype=st_.step_count.dtype))
+            return eqx.tree_at(lambda x: x.env_state, st_, rec(st_.env_state))
+        return bstate
+
+    wstate = rec(w0)
+    a = case["action"]
+    act = jnp.asarray(a, dtype=jnp.float32) if ref.box else jnp.asarray(int(a), dtype=int)
+    ia = ref.map_action(a)
+    inner_act = jnp.asarray(ia, dtype=jnp.float32) if ref.box else jnp.asarray(int(ia), dtype=int)
+    P = _wrapped_parts(env, base, wstate, bstate, act, inner_act, jr.key(case["key"]))
+    ctx.check(c01.tree_close(P["nxt_base"], P["bnxt"], 1e-5, 1e-6), "C13/classic/dynamics-not-driven-with-mapped-action", tags=tags, program=program, inner_action=ia)
+    ctx.check(np.isclose(float(P["rew"]), ref.map_reward(float(P["brew"])), **TOL), "C13/classic/reward-not-of-mapped-action-or-transform", tags=tags, observed=float(P["rew"]), expected=ref.map_reward(float(P["brew"])))
+    exp_obs, olo, ohi = ref.map_obs(np.asarray(P["bobs"], np.float64))
+    ctx.check(np.allclose(np.asarray(P["obs"], np.float64), exp_obs, **TOL), "C13/classic/observation-not-declared-transform", tags=tags, observed=P["obs"], expected=exp_obs)
+    osp = env.observation_space
+    ctx.check(np.allclose(np.asarray(osp.low, np.float64), olo, **TOL) and np.allclose(np.asarray(osp.high, np.float64), ohi, **TOL), "C13/classic/advertised-observation-space", tags=tags, low=osp.low, high=osp.high, expected=[olo, ohi])
+    if ref.box:
+        lo, hi = ref.action_bounds()
+        ctx.check(np.allclose(np.asarray(env.action_space.low), lo, **TOL) and np.allclose(np.asarray(env.action_space.high), hi, **TOL), "C13/classic/advertised-action-space", tags=tags)
+    ctx.check(bool(P["term"]) == bool(P["bterm"]), "C13/classic/terminal-not-passed-through", tags=tags)
+    counts2 = [c + 1 for c in counts]
+    exp_trunc = bool(P["btrunc"]) or any(c >= n for c, n in zip(counts2, ref.limits_outer_first()))
+    ctx.check(bool(P["trunc"]) == exp_trunc and wrapref.time_limit_counters(P["nxt"]) == counts2, "C13/classic/truncate", tags=tags, counts=counts2, limits=ref.limits_outer_first())
+    ctx.check(env.unwrapped is base and env.name == base.name, "C13/classic/unwrapped-or-name", tags=tags)
+    kinds = sorted({op[0] for op in program})
+    ctx.count(nontrivial=len(kinds) >= 2, classes=[name] + kinds, key=[name, program, case["key"] % 64])
+
+
+@st.composite
+def classic_stack_cases(draw, name, programs):
+    from checks.c01_step_reset import CLASSIC_REGIONS
+
+    program = draw(st.sampled_from(programs))
+    lo, hi = CLASSIC_REGIONS[name][0]
+    y = [float(np.float32(draw(st.floats(a_, b_, allow_nan=False)))) if a_ < b_ else float(a_) for a_, b_ in zip(lo, hi)]
+    base = c01._classic(name, None)
+    ref = wrapref.GenericRef(base, program)
+    if ref.box:
+        alo, ahi = ref.action_bounds()
+        l0, h0 = float(max(alo.reshape(-1)[0], -20.0)), float(min(ahi.reshape(-1)[0], 20.0))
+        a = float(np.float32(draw(st.one_of(st.sampled_from([l0, h0, (l0 + h0) / 2]), st.floats(l0, h0, allow_nan=False)))))
+        a = min(max(a, l0), h0)
+    else:
+        a = draw(st.integers(0, base.action_space.n - 1))
+    return {"env": name, "program": program, "y": y, "action": a, "counts": [draw(st.integers(0, 6)) for _ in range(4)], "key": draw(st.integers(0, 2**31 - 2))}
+
 
 @st.composite
 def stack_cases(draw, pool):
@@ -394,6 +480,7 @@ def oracle_gymnax_to_lerax(ctx: Ctx, case):
 
 
 PARTS = {
+    "classic_stack": oracle_classic_stack,
     "stack": oracle_stack,
     "rescale": oracle_rescale,
     "constructible": oracle_constructible,
@@ -439,6 +526,19 @@ def run(ctx: Ctx):
     ctx.notes["wrapper_programs"] = sum(len(v) for v in pool.values())
     ctx.run_given("stack", stack_cases(pool), oracle_stack, ctx.n(500, 10000))
     ctx.run_given("rescale", rescale_cases(), oracle_rescale, ctx.n(60, 1500))
+    # the same program vocabulary over built-in environments (bounded-Box and Discrete action spaces)
+    for name, kind in (("Pendulum", "box"), ("CartPole", "disc")) if ctx.quick else (("Pendulum", "box"), ("ContinuousMountainCar", "box"), ("CartPole", "disc"), ("MountainCar", "disc"), ("Acrobot", "disc")):
+        base = c01._classic(name, None)
+        spec_like = {"act_kind": "box" if kind == "box" else "discrete", "obs_kind": "onehot"}
+        progs = []
+        for p in wrapref.program_pool("box" if kind == "box" else "disc", rng, ctx.n(6, 20)):
+            # programs are generated for the MDP family; keep those applicable to this env's spaces
+            bounded_obs = bool(np.all(np.isfinite(np.asarray(base.observation_space.low))))
+            if any(op[0] == "obs_rescale" for op in p) and (not bounded_obs or any(op[0] == "obs_flatten" for op in p[: [o[0] for o in p].index("obs_rescale")])):
+                continue
+            progs.append(wrapref.fill_perms(p, getattr(base.action_space, "n", 0), rng))
+        if progs:
+            ctx.run_given("classic_stack", classic_stack_cases(name, progs), oracle_classic_stack, ctx.n(80, 1500))
     ctx.run_cases("constructible", [{"wrapper": w, "key": ctx.seed + i} for i, w in enumerate(WRAPPERS)], oracle_constructible)
     ctx.run_given("time_limit", timelimit_cases(), oracle_timelimit, ctx.n(120, 2500))
     for env, box, bound in (("CartPole-v1", False, 2), ("Pendulum-v1", True, 2.0), ("Acrobot-v1", False, 3), ("MountainCar-v0", False, 3)):
